@@ -1,6 +1,6 @@
 import G3D.Proofs.KTieKarea
 import G3D.Proofs.KTieKvecLen
-import G3D.Proofs.MethodsTiePolygon
+import G3D.Proofs.MethodsTiePolygonLength
 import G3D.Props.C06
 #print axioms G3D.Props.C06.polygon_area_is_shoelace
 #print axioms G3D.Props.C06.fan_centre_independent
